@@ -768,6 +768,12 @@ func (l *lexer) scanHeredoc() bool {
 		if start >= 0 && line == delim {
 			r.Heredoc = l.word[:start]
 			r.Delim = l.word[start:]
+			if r.Heredoc == nil {
+				// an empty body ended by an empty delimiter line is
+				// a here-document all the same
+				r.Heredoc = ast.Word{}
+				r.Delim = ast.Word{}
+			}
 			l.word = nil
 			return true
 		}
